@@ -246,6 +246,8 @@ def run(chk, replay=None):
             from vh.drivers.c06 import Capture
             with Capture(numpy, {'poisson': pe}) as cap:
                 res = call_test(pe, kind, fc, cat, nsim, rn, seed=chk.seed + t)
+            if cap.incomplete:
+                continue          # the sampler's numbers could not be observed: this L-test is not replayed
             for (_n, tgt, _w, _d, out) in cap.calls:
                 a = numpy.asarray(out).reshape(nc, nb)
                 if int(a.sum()) != int(tgt):
